@@ -20,9 +20,8 @@ Qed.
 Lemma ascii_head2 l h : valid2 h = true -> lay2_ok l = true -> ascii (head2 l h) = true.
 Proof.
   intros V L. destruct (valid2_inv h V) as [Foh Fve Fse Fol Fne]. destruct (v2_version_range _ Fve) as [R _].
-  unfold lay2_ok in L. rewrite !andb_true_iff in L. destruct L as [[[[Ln Lb] Lq] La] Lbb].
-  assert (Q : m_quote l = 34 \/ m_quote l = 39) by (clear - Lq; lia).
-  destruct (xml_decl_facts (m_quote l) Q) as [_ [XA _]].
+  unfold lay2_ok in L. rewrite !andb_true_iff in L. destruct L as [[[[[[Ln Lb] Qv] Qe] Qs] La] Lbb].
+  destruct (xml_decl_facts _ _ _ Qv Qe Qs) as [_ [XA _]].
   pose proof (uid_ok_inv _ Fol) as [Uol _]. pose proof (uid_ok_inv _ Fne) as [Une _].
   unfold head2, ofx_decl. rewrite Foh.
   repeat (rewrite ascii_app). rewrite XA, (ascii_ws _ La), (ascii_ws _ Lbb), (ascii_ws _ (lead_text_ws _ Lb)).
